@@ -20,6 +20,8 @@ func CheckRegistryTrace(calls []RegCall) []Violation {
 		failed   bool
 		lastFacx int
 		hasF     bool   // an early-reference factory was registered in the running attempt
+		facErr   bool   // the factory body of the attempt that just ended returned an error
+		pubInAtt bool   // the running attempt published its own name itself (AddSingleton)
 		facSeen  []bool // stack: did the goc currently running invoke its factory?
 	}
 	states := map[string]*st{}
@@ -49,10 +51,11 @@ func CheckRegistryTrace(calls []RegCall) []Violation {
 			}
 			s.creating++
 			if s.creating == 1 {
-				s.early, s.ef, s.failed, s.hasF = 0, 0, false, false
+				s.early, s.ef, s.failed, s.hasF, s.pubInAtt = 0, 0, false, false, false
 			}
 		case "facx":
 			s.lastFacx = c.Ref
+			s.facErr = c.Err
 		case "goc-exit":
 			created := false
 			if n := len(s.facSeen); n != 0 {
@@ -61,12 +64,21 @@ func CheckRegistryTrace(calls []RegCall) []Violation {
 			}
 			if created {
 				s.creating--
-				if c.Err {
+				if s.facErr && !c.Err {
+					// the factory failed: whatever the attempt did before (including publishing its
+					// own name), the creation has failed and must be reported as failed
+					add("failed-creation-reported-success", c.Name, fmt.Sprintf("the factory of %q returned an error, yet get-or-create returned ref %d with a nil error", c.Name, c.Ref), idx)
+				}
+				if c.Err || s.facErr {
 					if c.Ref != 0 {
 						add("failed-creation-returned-instance", c.Name, fmt.Sprintf("creation of %q failed but a reference was returned together with the error", c.Name), idx)
 					}
 					s.failed = true
 					s.early, s.ef, s.hasF = 0, 0, false
+					if s.pubInAtt {
+						// what the failed attempt published itself is part of the failed attempt
+						s.pub, s.pubInAtt = 0, false
+					}
 				} else {
 					if c.Ref == 0 {
 						add("creation-returned-nil", c.Name, fmt.Sprintf("creation of %q succeeded but returned nil", c.Name), idx)
@@ -148,6 +160,7 @@ func CheckRegistryTrace(calls []RegCall) []Violation {
 		case "add":
 			s.pub = c.Ref
 			s.failed = false
+			s.pubInAtt = s.creating > 0
 		case "remove":
 			*s = st{facSeen: s.facSeen, creating: s.creating}
 		case "addF":
